@@ -302,8 +302,29 @@ r175:
 			}
 			ok := true
 			who := ""
+			// a new plain helper function of the CLI (not a method: those are reachable through
+			// interfaces such as Identity.Unwrap) stands for its callers
+			var accepted func(f *ssa.Function, depth int) bool
+			accepted = func(f *ssa.Function, depth int) bool {
+				if allowedCallers[f.String()] {
+					return true
+				}
+				if depth > 3 || f.Signature.Recv() != nil || f.Parent() != nil || f.Pkg == nil || f.Pkg.Pkg.Path() != pkgCmdAge || isKnownFunc(f.String()) {
+					return false
+				}
+				cs := p.Callers(f)
+				if len(cs) == 0 {
+					return false
+				}
+				for _, e := range cs {
+					if !accepted(e.Caller, depth+1) {
+						return false
+					}
+				}
+				return true
+			}
 			for _, e := range p.Callers(fn) {
-				if !allowedCallers[e.Caller.String()] {
+				if !accepted(e.Caller, 0) {
 					ok = false
 					who = e.Caller.String()
 				}
